@@ -14,6 +14,8 @@ theorem verdict : (classify Generated.factsC01).Sound (Holds (cfgOf Generated.fa
 #print axioms Hv.Storage.decodeFileHeader_encode
 #print axioms Hv.Storage.readAll_render
 #print axioms Hv.Storage.loadIndex_render
+#print axioms Hv.Storage.walkEnd_renderBlocks
+#print axioms Hv.Storage.openExisting_ok
 #print axioms Hv.Storage.runOps_inv
 #print axioms Hv.Storage.loadIndex_runOps
 #print axioms Hv.Storage.find_specOf
@@ -28,6 +30,12 @@ theorem verdict : (classify Generated.factsC01).Sound (Holds (cfgOf Generated.fa
 #print axioms not_holds_of_noDelete
 #print axioms Hv.Storage.overflow_load_gen
 #print axioms not_holds_of_noCountFlush
+#print axioms Hv.Storage.zeroCounts_inv
+#print axioms stale_header_harmless
+#print axioms Hv.Storage.insert_update_equivalent
+#print axioms Hv.Storage.chronWrite_eq_runOps
+#print axioms not_holds_of_silentDrop
+#print axioms inserts_roundtrip
 #print axioms classify_sound
 
 end Hv.C01
